@@ -51,14 +51,14 @@ func runProj(t *ptab, idx uint64, preValid bool) string {
 	}
 	pre := [3][4]uint64{poison, poison, poison}
 	out, valid, ok := h(t, pre, preValid, idx)
-	var want [3][4]uint64
 	if idx == 0 {
-		want = [3][4]uint64{{}, montOne(), {}}
-	} else {
-		want = t[idx-1]
-	}
-	if out != want {
-		return fmt.Sprintf("lookupProjectivePoint(idx=%d) = %x, specification (entry idx-1 / identity (0,1,0)) = %x", idx, out, want)
+		// the implicit entry 0 is the identity: any representative (0, Y != 0, 0) is one; WHICH one is only
+		// constrained by "the assembly returns exactly what the portable routine returns" (checked below)
+		if out[0] != ([4]uint64{}) || out[2] != ([4]uint64{}) || out[1] == ([4]uint64{}) || out[1] == poison {
+			return fmt.Sprintf("lookupProjectivePoint(idx=0) = %x is not an identity representative (0, Y != 0, 0)", out)
+		}
+	} else if out != t[idx-1] {
+		return fmt.Sprintf("lookupProjectivePoint(idx=%d) = %x, specification (entry idx-1) = %x", idx, out, t[idx-1])
 	}
 	if !ok {
 		return "lookupProjectivePoint wrote outside the coordinate bytes of the destination (canary / padding / table modified)"
